@@ -733,7 +733,7 @@ def _apply_sections():
 
 def sections(tier):
     S = [("batch-binning-mixed", "checks.c03", "sec_batch_binning", {}), ("single", "checks.c03", "sec_single", {}), ("batch-ops", "checks.c03", "sec_batch_ops", {}), ("group", "checks.c03", "sec_group", {}), ("writeback", "checks.c03", "sec_writeback", {}), ("readd-and-index-column", "checks.c03", "sec_readd", {})]
-    seqs = [(0, 1, 0, 1), (1, 0), (0, 0, 1), (1, 0, 0), (0, 1, 1, 0)] if quick(tier) else [s for n in (2, 3, 4) for s in itertools.product((0, 1), repeat=n) if len(set(s)) == 2] + [(0, 1, 2, 0), (2, 0, 1, 0), (1, 2, 0, 1)]
+    seqs = [(0, 1, 0, 1), (1, 0), (0, 0, 1), (1, 0, 0), (0, 1, 1, 0), (1, 2, 0, 1), (2, 0, 1)] if quick(tier) else [s for n in (2, 3, 4) for s in itertools.product((0, 1), repeat=n) if len(set(s)) == 2] + [(0, 1, 2, 0), (2, 0, 1, 0), (1, 2, 0, 1), (2, 0, 1), (1, 2, 0), (2, 1, 0), (3, 1, 0, 2), (1, 3, 0, 2, 1)]
     for s in seqs:
         S.append((f"batch-{''.join(map(str, s))}", "checks.c03", "sec_batch", {"ids": s}))
     return S + _apply_sections()
